@@ -188,7 +188,7 @@ def is_concrete_num(v):
 
 
 def is_intlike(v):
-    return isinstance(v, (bool, int, SInt)) or (isinstance(v, Fraction) and v.denominator == 1)
+    return isinstance(v, (bool, int, SInt, SBool)) or (isinstance(v, Fraction) and v.denominator == 1)
 
 
 def is_num(v):
